@@ -185,7 +185,7 @@ impl WorldReactor for W0
 pub struct W1(pub u8);
 impl WorldReactor for W1
 {
-    type StartingTriggers = ();
+    type StartingTriggers = DynBundle;
     type Triggers = DynBundle;
     fn reactor(self) -> SystemCommandCallback { SystemCommandCallback::new(plain_actor::<()>(self.0)) }
 }
@@ -246,6 +246,12 @@ pub struct H
 
 impl H
 {
+    /// A table that can only resolve slots (used before the real one exists).
+    fn for_resolve(prog: Arc<Program>, slots: Vec<Entity>) -> H
+    {
+        H { prog, slots, insts: Vec::new(), tokens: Vec::new(), created: Vec::new(), runs: Vec::new(), total_runs: 0, sigs: Vec::new(), sig_ent: Vec::new(), known: Vec::new(),
+            wr_keys: [HashSet::new(), HashSet::new()], ewr_members: [HashMap::new(), HashMap::new()], base_entities: 0, callee_seq: 0, callee_calls: [0; 3], sys: Vec::new() }
+    }
     fn resolve(&self, t: &Trig) -> RTrig
     {
         let e = |s: Slot| self.slots[s as usize];
@@ -921,13 +927,31 @@ fn run_inner(prog: &Arc<Program>)
     let mut app = App::new();
     app.add_plugins(ReactPlugin);
     let ninst = prog.insts.len();
+    app.world_mut().insert_react_resource(RR(0));
+    app.world_mut().insert_react_resource(RS(0));
+    // slots first, so that a world reactor's starting triggers can name them
+    let mut slot_ents: Vec<Entity> = Vec::new();
+    for (s, (a, b)) in prog.slots.iter().enumerate()
+    {
+        let world = app.world_mut();
+        let e = world.spawn_empty().id();
+        slot_ents.push(e);
+        log(Ev::Spawned { slot: s as u8, e: e.to_bits() });
+        let (a, b) = (*a, *b);
+        world.react(|rc| { if let Some(v) = a { rc.insert(e, A(v)); } if let Some(v) = b { rc.insert(e, B(v)); } });
+    }
     // world reactors are added while building the app
     for (i, def) in prog.insts.iter().enumerate()
     {
         match def.origin
         {
             Origin::World(0) => { app.add_world_reactor(W0(i as u8)); }
-            Origin::World(_) => { app.add_world_reactor(W1(i as u8)); }
+            Origin::World(_) =>
+            {
+                let tmp = H::for_resolve(prog.clone(), slot_ents.clone());
+                let b = tmp.bundle(&prog.wr_starting);
+                app.add_world_reactor_with(W1(i as u8), b);
+            }
             Origin::EntityWorld(0) => { app.add_entity_reactor(T0(i as u8)); }
             Origin::EntityWorld(_) => { app.add_entity_reactor(T1(i as u8)); }
             _ => {}
@@ -959,9 +983,7 @@ fn run_inner(prog: &Arc<Program>)
         }
     }
     let world = app.world_mut();
-    world.insert_react_resource(RR(0));
-    world.insert_react_resource(RS(0));
-    let before = world.entities().len() as i64;
+    let before = world.entities().len() as i64 - slot_ents.len() as i64;
     let mut h = H {
         prog: prog.clone(),
         slots: Vec::new(),
@@ -981,16 +1003,8 @@ fn run_inner(prog: &Arc<Program>)
         sys: vec![None; 4],
     };
     // world reactor system entities exist already (counted in `before`); learn nothing about them: they are framework-owned
-    // slots
-    for (s, (a, b)) in prog.slots.iter().enumerate()
-    {
-        let e = world.spawn_empty().id();
-        h.slots.push(e);
-        h.known.push(e);
-        log(Ev::Spawned { slot: s as u8, e: e.to_bits() });
-        let (a, b) = (*a, *b);
-        world.react(|rc| { if let Some(v) = a { rc.insert(e, A(v)); } if let Some(v) = b { rc.insert(e, B(v)); } });
-    }
+    for e in &slot_ents { h.slots.push(*e); h.known.push(*e); }
+    { let t = H::for_resolve(prog.clone(), slot_ents.clone()); for tr in prog.wr_starting.iter().take(MAX_BUNDLE) { h.wr_keys[1].insert(t.resolve(tr)); } }
     // pre-spawned actors
     for (i, def) in prog.insts.iter().enumerate()
     {
